@@ -1,15 +1,17 @@
 package checks
 
 import (
+	"bufio"
 	"bytes"
-	"io"
 	"encoding/json"
 	"fmt"
+	"io"
 	"strings"
 	"sync/atomic"
 	"time"
 
 	"github.com/alttpo/snes/emulator"
+	"github.com/alttpo/snes/emulator/cpu65c816"
 
 	"verif/internal/par"
 	"verif/internal/ref65816"
@@ -468,6 +470,8 @@ type c14Event struct {
 	text string
 }
 
+const c14LateJudged = 0xFFFFFFFF
+
 type c14Logger struct {
 	sys       *emulator.System
 	events    *[]c14Event
@@ -480,8 +484,7 @@ type c14Logger struct {
 	failAfter int
 }
 
-func (l *c14Logger) Write(p []byte) (int, error) {
-	c := &l.sys.CPU
+func c14PreState(c *cpu65c816.CPU) ref65816.State {
 	pre := ref65816.State{PC: c.PC, K: c.RK, P: c.Flags(), S: c.SP, D: c.RD, DBR: c.RDBR}
 	if c.M == 1 {
 		pre.C = uint16(c.RAh)<<8 | uint16(c.RAl)
@@ -493,6 +496,12 @@ func (l *c14Logger) Write(p []byte) (int, error) {
 	} else {
 		pre.X, pre.Y = c.RX, c.RY
 	}
+	return pre
+}
+
+func (l *c14Logger) Write(p []byte) (int, error) {
+	c := &l.sys.CPU
+	pre := c14PreState(c)
 	ev := c14Event{line: true, pc: uint32(c.RK)<<16 | uint32(c.PC), text: strings.TrimRight(string(p), "\n")}
 	if kind, wt := checkTraceLine(string(p), pre, func(a uint32) byte { return l.sys.Bus.EaRead(a) }, true); kind != "" {
 		ev.bad = kind + ": " + wt
@@ -588,7 +597,31 @@ func c14RunCheck(w *c12World, rr c12Run) (sig, what string) {
 	// with a logger
 	var events []c14Event
 	var lg *c14Logger
-	if rr.Logger == 2 {
+	// loggers 5..8 are sinks of the standard library (what a caller would ordinarily hand in): their text is
+	// collected after the run and judged line by line during the hand re-execution below
+	var std func() string
+	if rr.Logger >= 5 {
+		lg = &c14Logger{sys: w.sut, events: &events}
+		switch rr.Logger {
+		case 5, 6:
+			under := &bytes.Buffer{}
+			size := 4096
+			if rr.Logger == 6 {
+				size = 16
+			}
+			bw := bufio.NewWriterSize(under, size)
+			w.sut.Logger = bw
+			std = func() string { bw.Flush(); return under.String() }
+		case 7:
+			b := &bytes.Buffer{}
+			w.sut.Logger = b
+			std = b.String
+		default:
+			b := &strings.Builder{}
+			w.sut.Logger = b
+			std = b.String
+		}
+	} else if rr.Logger == 2 {
 		l := &c14RCLogger{c14Logger{sys: w.sut, events: &events, rc: true}}
 		lg = &l.c14Logger
 		w.sut.Logger = l
@@ -640,6 +673,17 @@ func c14RunCheck(w *c12World, rr c12Run) (sig, what string) {
 			lines = append(lines, ev)
 		}
 	}
+	if std != nil {
+		w.sut.Logger = nil
+		if text := std(); text != "" {
+			if !strings.HasSuffix(text, "\n") {
+				return "unexplained:trace-text-unterminated", fmt.Sprintf("the text collected by the standard-library sink does not end in a newline: %q | %s", text[len(text)-min(len(text), 60):], desc())
+			}
+			for _, t := range strings.Split(strings.TrimSuffix(text, "\n"), "\n") {
+				lines = append(lines, c14Event{line: true, pc: c14LateJudged, text: t})
+			}
+		}
+	}
 	final := c12Snapshot(w.sut)
 	c12Prepare(w.twin, rr)
 	before := c12Snapshot(w.twin)
@@ -647,7 +691,13 @@ func c14RunCheck(w *c12World, rr c12Run) (sig, what string) {
 		if ev.bad != "" {
 			return "unexplained:trace-" + strings.SplitN(ev.bad, ":", 2)[0] + ":RunUntil", fmt.Sprintf("trace line %d %q written before the instruction at $%06x: %s | %s", i, ev.text, ev.pc, ev.bad, desc())
 		}
-		if w.twin.GetPC() != ev.pc {
+		if ev.pc == c14LateJudged {
+			// judged now, against the state of the hand execution about to execute the i-th instruction
+			if kind, wt := checkTraceLine(ev.text+"\n", c14PreState(&w.twin.CPU), func(a uint32) byte { return w.twin.Bus.EaRead(a) }, true); kind != "" {
+				w.skipped = true
+				return "unexplained:trace-" + kind + ":RunUntil", fmt.Sprintf("line %d of the text a standard-library sink collected, %q, does not describe the %d-th instruction to execute (at $%06x): %s | %s", i, ev.text, i, w.twin.GetPC(), wt, desc())
+			}
+		} else if w.twin.GetPC() != ev.pc {
 			w.skipped = true
 			return "unexplained:trace-line-out-of-step", fmt.Sprintf("trace line %d %q stands at $%06x, the %d-th instruction to execute is at $%06x | %s", i, ev.text, ev.pc, i, w.twin.GetPC(), desc())
 		}
@@ -756,11 +806,15 @@ func runC14(r *report.Run) {
 	for _, rr := range c12Scenarios(pdepth, []int{3, 4}, []uint64{8, 50}) {
 		runs = append(runs, rr)
 	}
+	// sinks of the standard library: bufio.Writer (default size and 16 bytes), bytes.Buffer, strings.Builder
+	for _, rr := range c12Scenarios(pdepth, []int{5, 6, 7, 8}, []uint64{8, 50}) {
+		runs = append(runs, rr)
+	}
 	// long runs: budgets beyond the logger's reservation clamp ($100 cycles), on programs that loop
 	for _, prog := range [][]string{{"BRA -2"}, {"INX", "BRA -3"}, {"LDA #$1234", "PHA", "PLA", "BNE -3"}, {"DEX", "BNE -3", "STP"}} {
 		for _, start := range []uint32{0x7E2000, 0x008000} {
 			for _, b := range []uint64{0xFF, 0x100, 0x101, 300, 1000} {
-				for _, lg := range []int{1, 2} {
+				for _, lg := range []int{1, 2, 5, 6, 7, 8} {
 					runs = append(runs, c12Run{Prog: prog, Start: start, Target: 0x7E3000, Budget: b, Logger: lg})
 				}
 			}
@@ -800,7 +854,7 @@ func runC14(r *report.Run) {
 	_ = lines
 	r.Set("single_step_cases_by_sweep", counts)
 	r.Set("renderers", []string{"cpu65c816.DisassembleCurrentPC", "cpualt.DisassembleCurrentPC", "cpualt.Disassemble"})
-	r.Set("logged_runs", map[string]interface{}{"scenarios_executed": executed, "program_depth": pdepth, "budgets": budgets, "logger_kinds": []string{"plain io.Writer", "Writer+Reserve+Commit"}})
+	r.Set("logged_runs", map[string]interface{}{"scenarios_executed": executed, "program_depth": pdepth, "budgets": budgets, "logger_kinds": []string{"plain io.Writer", "Writer+Reserve+Commit", "self-detaching", "failing", "*bufio.Writer (4096 and 16 bytes)", "*bytes.Buffer", "*strings.Builder"}})
 	r.Set("states", total+executed)
 	r.Set("transitions", 3*total+executed)
 	r.Set("traces_validated_against_impl", 3*total+executed)
